@@ -633,10 +633,15 @@ impl World for WorldU {
                 }
             };
             let opened = matches!(op, UOp::OpenWindow { .. } | UOp::Upgrade { auth: AuthVar::Right, .. });
-            let rebind = matches!(op, UOp::Upgrade { auth: AuthVar::Right, .. }) && rng.chance(1, 3);
+            let rebind = matches!(op, UOp::Upgrade { auth: AuthVar::Right, .. }) && rng.chance(1, 2);
             ops.push(op);
             if rebind {
                 ops.push(UOp::Rebind { target });
+                if rng.chance(1, 3) {
+                    // the role moves while the migration is pending: who may run it now?
+                    ops.push(UOp::TransferOwnership { target, to: rng.below(NP as u64) as u8, auth: AuthVar::Right });
+                    ops.push(UOp::Migrate { target, data: MigData::Unit, auth: *rng.pick(&[AuthVar::Former, AuthVar::Right, AuthVar::Former]), abort: None });
+                }
             }
             if rng.chance(1, 10) {
                 ops.push(UOp::Advance { dseq: *rng.pick(&[1u32, 17, 100, 20_000, 1_100_000]) });
